@@ -16,7 +16,8 @@ VERIF = os.path.dirname(HERE)
 LEAN = os.path.join(VERIF, "lean")
 SCRATCH = os.environ.get("TRANSLATOR_SCRATCH", "/tmp/r_translator")
 PROPS = ["VelaVerif.Props.C19Src", "VelaVerif.Props.C04Src", "VelaVerif.Props.C06Src", "VelaVerif.Props.C09Src", "VelaVerif.Props.C10Src",
-         "VelaVerif.Props.C15Src", "VelaVerif.Props.C17Src", "VelaVerif.Props.C02Src"]
+         "VelaVerif.Props.C15Src", "VelaVerif.Props.C17Src", "VelaVerif.Props.C02Src",
+         "VelaVerif.Props.C05Src", "VelaVerif.Props.C08Src", "VelaVerif.Props.C12Src", "VelaVerif.Props.C16Src"]
 
 # name -> (kind, file, old, new)
 EDITS = {
@@ -81,6 +82,48 @@ EDITS = {
         "            if intersects(overlapping_fm, in_area[0], in_area[1], prev_op.ofm, out_area[0], out_area[1]):\n                continue"),
     "S28-round_up_to_int-plus-one": ("semantic", "ethosu/vela/numeric_util.py",
         "    return int(math.ceil(v))", "    return int(math.ceil(v)) + 1"),
+    # third round: hillclimb_allocation, live_range, weight_compressor.encode_bias, tflite_supported_operators, operation.Kernel
+    "S29-hillclimb-overlaps-inclusive-end": ("semantic", "ethosu/vela/hillclimb_allocation.py",
+        "        return self.address < addr2 + size2 and addr2 < self.end_address", "        return self.address < addr2 + size2 and addr2 <= self.end_address"),
+    "S30-is_neighbour-strict": ("semantic", "ethosu/vela/hillclimb_allocation.py",
+        "        return self.start_time <= lr.end_time and lr.start_time <= self.end_time", "        return self.start_time < lr.end_time and lr.start_time <= self.end_time"),
+    "S31-lt-size-order-reversed": ("semantic", "ethosu/vela/hillclimb_allocation.py",
+        "            return self.size > other.size", "            return self.size < other.size"),
+    "S32-mark_usage-end-inclusive": ("semantic", "ethosu/vela/live_range.py",
+        "        op_time_end = op_time + op_length", "        op_time_end = op_time + op_length - 1"),
+    "S33-mark_usage-start-overwritten": ("semantic", "ethosu/vela/live_range.py",
+        "        self.start_time = min(self.start_time, op_time_start)", "        self.start_time = op_time_start"),
+    "S34-encode_bias-shift-mask": ("semantic", "ethosu/vela/weight_compressor.py",
+        "    data[9] = shift & 0x3F", "    data[9] = shift & 0x1F"),
+    "S35-encode_bias-scale-range": ("semantic", "ethosu/vela/weight_compressor.py",
+        "    assert 0 <= scale < (1 << 32)", "    assert 0 <= scale < (1 << 31)"),
+    "S36-encode_bias-byte4-from-byte3": ("semantic", "ethosu/vela/weight_compressor.py",
+        "    data[4] = (bias >> (4 * 8)) & 0xFF", "    data[4] = (bias >> (3 * 8)) & 0xFF"),
+    "S37-stride_range-height-upper-exclusive": ("semantic", "ethosu/vela/tflite_supported_operators.py",
+        "(stride_min <= h <= stride_max)", "(stride_min <= h < stride_max)"),
+    "S38-filter_range-stride-exception-dropped": ("semantic", "ethosu/vela/tflite_supported_operators.py",
+        "            valid = ((filter_min <= w <= filter_max) or sw == w) and (filter_min <= h <= filter_max)",
+        "            valid = (filter_min <= w <= filter_max) and (filter_min <= h <= filter_max)"),
+    "S39-dilated_product-sum": ("semantic", "ethosu/vela/tflite_supported_operators.py",
+        "        product = op.kernel.area_width() * op.kernel.area_height()", "        product = op.kernel.area_width() + op.kernel.area_height()"),
+    "S40-kernel-area_width": ("semantic", "ethosu/vela/operation.py",
+        "        return (self.width - 1) * self.dilation.x + 1", "        return self.width * self.dilation.x"),
+    "S41-filter_height_range-strict": ("semantic", "ethosu/vela/tflite_supported_operators.py",
+        "        valid = filter_height_min <= h <= filter_height_max", "        valid = filter_height_min < h <= filter_height_max"),
+    "H16-hillclimb-overlaps-conjuncts-swapped": ("harmless", "ethosu/vela/hillclimb_allocation.py",
+        "        return self.address < addr2 + size2 and addr2 < self.end_address", "        return addr2 < self.end_address and self.address < addr2 + size2"),
+    "H17-mark_usage-rename-local": ("harmless", "ethosu/vela/live_range.py", "op_time_start", "t_first"),
+    "H18-mark_usage-comparison-flipped": ("harmless", "ethosu/vela/live_range.py",
+        "        if op_time_end < op_time_start:", "        if op_time_start > op_time_end:"),
+    "H19-encode_bias-byte0-without-shift": ("harmless", "ethosu/vela/weight_compressor.py",
+        "    data[0] = (bias >> (0 * 8)) & 0xFF", "    data[0] = bias & 0xFF"),
+    "H20-stride_range-rename-local": ("harmless", "ethosu/vela/tflite_supported_operators.py",
+        "        valid = (stride_min <= w <= stride_max) and (stride_min <= h <= stride_max)\n        return valid, f\"Op has stride WxH as: {w}x{h}\"",
+        "        in_range = (stride_min <= w <= stride_max) and (stride_min <= h <= stride_max)\n        return in_range, f\"Op has stride WxH as: {w}x{h}\""),
+    "H21-dilated_product-chain-spelled-out": ("harmless", "ethosu/vela/tflite_supported_operators.py",
+        "        valid = dilated_product_min <= product <= dilated_product_max", "        valid = dilated_product_min <= product and product <= dilated_product_max"),
+    "H22-encode_bias-message-on-assert": ("harmless", "ethosu/vela/weight_compressor.py",
+        "    assert 0 <= shift < (1 << 6)  # unsigned 6-bit range", "    assert 0 <= shift < 64, \"shift\""),
     # harmless rewrites
     "H8-needed_total_padding-max-operands-swapped": ("harmless", "ethosu/vela/graph_optimiser_util.py",
         "        return max(filter_size - stride, 0)", "        return max(0, filter_size - stride)"),
